@@ -88,8 +88,11 @@ partial def toExpr : Sexp → Expr
     | "Unary", o :: _ => .unaryOp (toExpr o) r
     | "Cmp", l :: c :: _ => .compare (toExpr l) (xs c) r
     | "Await", v :: _ => .await (toExpr v) r
-    | "Yield", _ => .yield r
-    | "YieldFrom", _ => .yieldFrom r
+    | "Yield", .list v :: _ => .yield (v.map toExpr) r
+    | "Yield", _ => .yield [] r
+    | "YieldFrom", .list v :: _ => .yieldFrom (v.map toExpr) r
+    | "YieldFrom", _ => .yieldFrom [] r
+    | "Group", e :: _ => .group (xs e) r
     | _, _ => .other r
   | _ => .other ⟨0, 0, 0, 0⟩
 
